@@ -620,7 +620,10 @@ class Runner:
             base = os.path.join(util.subdir("traj_files"), "t_%d_%d" % (os.getpid(), ns))
             save_rdtrajectory(out, base, separate_data=bool(ns % 2))
             back = load_rdtrajectory(base + ".json")
-            if (back.nsamples() != ns or not same_bits(back.t.value, out.t.value) or not same_bits(back.data.value, out.data.value)
+            # (values compared as numbers: a NaN of an unstable Euler run comes back from JSON text as a NaN, not necessarily
+            #  with the same sign / payload bits)
+            if (back.nsamples() != ns or not np.array_equal(back.t.value, out.t.value, equal_nan=True)
+                    or not np.array_equal(back.data.value, out.data.value, equal_nan=True)
                     or len(back.data) != back.nsamples() * back.nspecies() * back.ncells()):
                 ok = False
                 why.append("saved and re-loaded trajectory differs (times, data or shape)")
